@@ -66,6 +66,8 @@ def generate(seed, tier):
         case['r'] = r
         case['jumps'] = nj + nr
         case['B0'] = round(case['V0'] * rng.uniform(0.2, 0.8), 2)
+        if rng.random() < 0.25:
+            case['B0'] = 0.0          # cash-only start: an explicit zero initial condition
         case['YD0'] = round(rng.uniform(5, 60), 2) if rng.random() < 0.5 else 0.0
     if which == 'ITER':
         case['V0'] = 80.0 if rng.random() < 0.5 else case['V0']
@@ -186,14 +188,14 @@ def run_builder(c, tol=1e-12):
     if c['V0']:
         hh.AddInitialCondition('F', c['V0'])
         gov.AddInitialCondition('F', -c['V0'])
-    if c['which'] in ('SIMEX1', 'PC') and c.get('YD0'):
-        hh.AddInitialCondition('AfterTax', c['YD0'])
+    if c['which'] in ('SIMEX1', 'PC') and (c.get('YD0') or c['V0']):
+        hh.AddInitialCondition('AfterTax', c.get('YD0', 0.0))
     if c['which'] == 'PC':
         hh.SetEquationRightHandSide('L0', repr(c['l0']))
         hh.SetEquationRightHandSide('L1', repr(c['l1']))
         hh.SetEquationRightHandSide('L2', repr(c['l2']))
         ctry['DEP'].SetExogenous('r', list(c['r']))
-        if c['B0']:
+        if c['B0'] or c['V0']:
             hh.AddInitialCondition('DEM_DEP', c['B0'])
     model.MaxTime = c['T']
     model.EquationSolver.ParameterErrorTolerance = tol
